@@ -1267,3 +1267,57 @@ package scipipe
 //@   ensures fresh: err == nil ==> res != nil && fresh(res) && res.path == path && !res.doStream && res.SubStream != nil && fresh(res.SubStream) && res.lock != nil
 //@   ensures existing-file-carries-its-record[C02,C11]: err == nil && statOK(fsEpoch, path) ==> res.auditInfo == loadedAudit(path + ".audit.json", fsEpoch)
 //@   ensures no-effects: effCreated == old(effCreated) && effMkdir == old(effMkdir) && effRenamed == old(effRenamed) && effRemoved == old(effRemoved) && effExec == old(effExec)
+
+// ---------------------------------------------------------------------------
+// task.go: NewTask (C04 out-IPs cover the path functions, C06 cores, C08 unbuffered Done, C09 invalid output path,
+//          C17 stream flag propagated, C18 sub-stream drained completely, once, in order)
+// ---------------------------------------------------------------------------
+
+// The path function of an out-port (Process.PathFuncs[o], user supplied or built by SetOut): assumed free of side effects.
+//@ extern param:outPathFuncs(task) (res)
+
+//@ define joinPort(portInfos map[string]*PortInfo, k string) bool = k in portInfos && portInfos[k].join && portInfos[k].joinSep != ""
+//@ define subChan(inIPs map[string]*FileIP, k string) chan *FileIP = inIPs[k].SubStream.Chan
+//@ define wfJoinInputs(portInfos map[string]*PortInfo, inIPs map[string]*FileIP) bool = (forall k string :: k in portInfos ==> portInfos[k] != nil) && (forall k1 string, k2 string :: joinPort(portInfos, k1) && joinPort(portInfos, k2) && k1 != k2 ==> subChan(inIPs, k1) != subChan(inIPs, k2))
+
+//@ func NewTask(workflow, process, name, cmdPat, inIPs, outPathFuncs, portInfos, params, tags, prepend, customExecute, cores) (t)
+//@   props C04 C06 C08 C09 C17 C18
+//@   requires wf: wfJoinInputs(portInfos, inIPs)
+//@   modifies fresh, chan, locked
+//@   ensures fresh: t != nil && fresh(t)
+//@   ensures identity[C04,C06]: t.Name == name && t.InIPs == inIPs && t.Params == params && t.Tags == tags && t.cores == cores && t.workflow == workflow && t.Process == process && t.CustomExecute == customExecute && t.portInfos == portInfos
+//@   ensures done-unbuffered[C08]: t.Done != nil && fresh(t.Done) && chanCap(t.Done) == 0 && chanSentN(t.Done) == 0 && !chanClosed(t.Done)
+//@   ensures out-ips-cover-path-funcs[C04]: t.OutIPs != nil && fresh(t.OutIPs) && (forall o string :: o in t.OutIPs <==> o in outPathFuncs)
+//@   ensures out-ips-valid[C09]: forall o string :: o in t.OutIPs ==> t.OutIPs[o] != nil && fresh(t.OutIPs[o]) && validPath(t.OutIPs[o].path)
+//@   ensures stream-flag-propagated[C17]: forall o string :: o in t.OutIPs ==> (t.OutIPs[o].doStream <==> (o in portInfos && portInfos[o].doStream))
+//@   ensures substream-drained[C18]: forall k string :: joinPort(portInfos, k) ==> k in t.subStreamIPs && chanRecvN(subChan(inIPs, k)) == chanTotal(subChan(inIPs, k)) && len(t.subStreamIPs[k]) == chanTotal(subChan(inIPs, k)) - old(chanRecvN(subChan(inIPs, k))) && (forall j int :: 0 <= j && j < len(t.subStreamIPs[k]) ==> t.subStreamIPs[k][j] == chanInAt(subChan(inIPs, k), old(chanRecvN(subChan(inIPs, k))) + j))
+//@   ensures nothing-sent: forall c chan *FileIP :: !fresh(c) ==> chanSentN(c) == old(chanSentN(c))
+//@   ensures no-effects: effCreated == old(effCreated) && effMkdir == old(effMkdir) && effRenamed == old(effRenamed) && effRemoved == old(effRemoved) && effExec == old(effExec)
+//@   loop 0 invariant fresh: t != nil && fresh(t) && fresh(t.subStreamIPs) && t.subStreamIPs != nil && fresh(t.OutIPs) && t.OutIPs != nil && t.OutIPs != inIPs
+//@   loop 0 invariant fields: t.Name == name && t.InIPs == inIPs && t.Params == params && t.Tags == tags && t.cores == cores && t.workflow == workflow && t.Process == process && t.CustomExecute == customExecute && t.portInfos == portInfos && t.Command == ""
+//@   loop 0 invariant done: t.Done != nil && fresh(t.Done) && chanCap(t.Done) == 0 && chanSentN(t.Done) == 0 && !chanClosed(t.Done)
+//@   loop 0 invariant outips-empty: forall o string :: !(o in t.OutIPs)
+//@   loop 0 invariant vis: forall k string :: $visited[k] ==> k in portInfos
+//@   loop 0 invariant drained: forall k string :: $visited[k] && joinPort(portInfos, k) ==> k in t.subStreamIPs && chanRecvN(subChan(inIPs, k)) == chanTotal(subChan(inIPs, k)) && len(t.subStreamIPs[k]) == chanTotal(subChan(inIPs, k)) - old(chanRecvN(subChan(inIPs, k))) && (forall j int :: 0 <= j && j < len(t.subStreamIPs[k]) ==> t.subStreamIPs[k][j] == chanInAt(subChan(inIPs, k), old(chanRecvN(subChan(inIPs, k))) + j))
+//@   loop 0 invariant not-yet: forall k string :: joinPort(portInfos, k) && !$visited[k] ==> chanRecvN(subChan(inIPs, k)) == old(chanRecvN(subChan(inIPs, k)))
+//@   loop 0 invariant nothing-sent: forall c chan *FileIP :: !fresh(c) ==> chanSentN(c) == old(chanSentN(c))
+//@   loop 1 invariant fresh: t != nil && fresh(t) && fresh(t.subStreamIPs) && t.subStreamIPs != nil && fresh(t.OutIPs) && t.OutIPs != nil && t.OutIPs != inIPs
+//@   loop 1 invariant fields: t.Name == name && t.InIPs == inIPs && t.Params == params && t.Tags == tags && t.cores == cores && t.workflow == workflow && t.Process == process && t.CustomExecute == customExecute && t.portInfos == portInfos && t.Command == ""
+//@   loop 1 invariant done: t.Done != nil && fresh(t.Done) && chanCap(t.Done) == 0 && chanSentN(t.Done) == 0 && !chanClosed(t.Done)
+//@   loop 1 invariant outips-empty: forall o string :: !(o in t.OutIPs)
+//@   loop 1 invariant cur: joinPort(portInfos, ptName) && $visited0[ptName]
+//@   loop 1 invariant collected: chanRecvN(subChan(inIPs, ptName)) >= old(chanRecvN(subChan(inIPs, ptName))) && chanRecvN(subChan(inIPs, ptName)) <= chanTotal(subChan(inIPs, ptName)) && len(ips) == chanRecvN(subChan(inIPs, ptName)) - old(chanRecvN(subChan(inIPs, ptName))) && (forall j int :: 0 <= j && j < len(ips) ==> ips[j] == chanInAt(subChan(inIPs, ptName), old(chanRecvN(subChan(inIPs, ptName))) + j))
+//@   loop 1 invariant others-drained: forall k string :: $visited0[k] && k != ptName && joinPort(portInfos, k) ==> k in t.subStreamIPs && chanRecvN(subChan(inIPs, k)) == chanTotal(subChan(inIPs, k)) && len(t.subStreamIPs[k]) == chanTotal(subChan(inIPs, k)) - old(chanRecvN(subChan(inIPs, k))) && (forall j int :: 0 <= j && j < len(t.subStreamIPs[k]) ==> t.subStreamIPs[k][j] == chanInAt(subChan(inIPs, k), old(chanRecvN(subChan(inIPs, k))) + j))
+//@   loop 1 invariant not-yet: forall k string :: joinPort(portInfos, k) && !$visited0[k] ==> chanRecvN(subChan(inIPs, k)) == old(chanRecvN(subChan(inIPs, k)))
+//@   loop 1 invariant nothing-sent: forall c chan *FileIP :: !fresh(c) ==> chanSentN(c) == old(chanSentN(c))
+//@   loop 2 invariant fresh: t != nil && fresh(t) && fresh(t.subStreamIPs) && fresh(t.OutIPs) && t.OutIPs != nil && t.OutIPs != inIPs
+//@   loop 2 invariant fields: t.Name == name && t.InIPs == inIPs && t.Params == params && t.Tags == tags && t.cores == cores && t.workflow == workflow && t.Process == process && t.CustomExecute == customExecute && t.portInfos == portInfos
+//@   loop 2 invariant done: t.Done != nil && fresh(t.Done) && chanCap(t.Done) == 0 && chanSentN(t.Done) == 0 && !chanClosed(t.Done)
+//@   loop 2 invariant vis: forall o string :: $visited[o] ==> o in outPathFuncs
+//@   loop 2 invariant cover: forall o string :: o in t.OutIPs <==> $visited[o]
+//@   loop 2 invariant valid: forall o string :: o in t.OutIPs ==> t.OutIPs[o] != nil && fresh(t.OutIPs[o]) && validPath(t.OutIPs[o].path)
+//@   loop 2 invariant stream: forall o string :: o in t.OutIPs ==> (t.OutIPs[o].doStream <==> (o in portInfos && portInfos[o].doStream))
+//@   loop 2 invariant distinct: forall o1 string, o2 string :: o1 in t.OutIPs && o2 in t.OutIPs && o1 != o2 ==> t.OutIPs[o1] != t.OutIPs[o2]
+//@   loop 2 invariant drained: forall k string :: joinPort(portInfos, k) ==> k in t.subStreamIPs && chanRecvN(subChan(inIPs, k)) == chanTotal(subChan(inIPs, k)) && len(t.subStreamIPs[k]) == chanTotal(subChan(inIPs, k)) - old(chanRecvN(subChan(inIPs, k))) && (forall j int :: 0 <= j && j < len(t.subStreamIPs[k]) ==> t.subStreamIPs[k][j] == chanInAt(subChan(inIPs, k), old(chanRecvN(subChan(inIPs, k))) + j))
+//@   loop 2 invariant nothing-sent: forall c chan *FileIP :: !fresh(c) ==> chanSentN(c) == old(chanSentN(c))
+//@   loop 2 invariant no-effects: effCreated == old(effCreated) && effMkdir == old(effMkdir) && effRenamed == old(effRenamed) && effRemoved == old(effRemoved) && effExec == old(effExec)
